@@ -2,6 +2,9 @@
 From Coq Require Import Floats.
 From EF Require Import Model.Base Gen.Tables Model.Code Model.Value Model.Env Model.Reflect Model.Builtins Model.Compiler
                        Model.VM Model.Api Model.Ast Spec.ExecFun Proofs.EnvProofs Proofs.CallProofs Proofs.ProgProofs.
+From EF Require Import Model.Lexer Spec.Moded.
+From EF Require Proofs.SpecProofs Proofs.SpecCallProofs.
+Import SpecCallProofs.
 Open Scope N_scope.
 
 (* a declaration in a fresh scope shadows, and closing the scope restores exactly what was there *)
@@ -122,3 +125,72 @@ Proof. exact ProgProofs.program_compile_correct_partial. Qed.
 Theorem C06_program_compile_correct_needs_short_lists :
   ~ (forall (o : stdlib) (fns : fnmap) (p : program), program_compile_correct o fns p).
 Proof. exact ProgProofs.program_compile_correct_all_false. Qed.
+
+(* ------------------------------------------------------------------ *)
+(* THE REFERENCE INTERPRETER'S CALLS MEAN WHAT THE PROPERTY SAYS (Proofs/SpecCallProofs.v): for all programs,
+   states and fuel. *)
+
+(* after a call of a user-defined function returns - by `return` from anywhere, also from inside nested loops,
+   or by falling off the end - the caller's open scopes are EXACTLY what they were once the arguments had been
+   evaluated (same bindings, same values: the callee could neither read nor change them, and its own parameters,
+   locals and loop variables are gone); the stack is the caller's plus the returned value (nothing for a
+   value-less return); what may have changed besides are the globals, and the trace has only grown *)
+Theorem C06_call_restores_callers_locals : forall (o : stdlib) (fns : fnmap) (obj : hostval) (afs : aftable) (f : nat) (fn : expr)
+    (name : str) (args : list expr) (m m' : mstate) (af : afunc),
+  estr 64 fn = Some name -> fn_get name fns = None -> af_get name afs = Some af ->
+  sx o fns obj afs (S f) (ECall fn args) m = XNormal m' ->
+  exists (m1 : mstate) (vals s : list value) (v : value) (m2 : mstate),
+    user_call_completes o fns obj afs f af args m m1 vals s v m2 m' /\
+    scopes (menv m') = scopes (menv m1) /\
+    stk m' = ret_stack v s /\
+    globals (menv m') = globals (menv m2) /\
+    polls m' = polls m /\
+    (exists t : list call, trace m' = t ++ trace m) /\
+    (forall n : str, local_get n (scopes (menv m')) = local_get n (scopes (menv m1))).
+Proof. exact SpecCallProofs.call_restores_callers_locals. Qed.
+
+(* non-interference: the body of a callee behaves identically whatever the callers' locals hold *)
+Theorem C06_callee_cannot_observe_callers_locals : forall (o : stdlib) (fns : fnmap) (obj : hostval) (afs : aftable) (f : nat)
+    (af : afunc) (vals : list value) (m1 m1' : mstate),
+  trace m1 = trace m1' -> polls m1 = polls m1' -> globals (menv m1) = globals (menv m1') ->
+  List.length (scopes (menv m1)) = List.length (scopes (menv m1')) ->
+  same_outcome (sblock o fns obj afs f (abody af) (callee_entry m1 af vals))
+               (sblock o fns obj afs f (abody af) (callee_entry m1' af vals)).
+Proof. exact SpecCallProofs.callee_cannot_observe_callers_locals. Qed.
+
+(* assignments to other names are global and visible afterwards (unless the caller has a local of that name,
+   which then still shadows it) *)
+Theorem C06_assignment_to_other_names_is_global : forall (o : stdlib) (fns : fnmap) (obj : hostval) (afs : aftable) (f : nat)
+    (af : afunc) (args : list expr) (m m1 : mstate) (vals s : list value) (v : value) (m2 m' : mstate),
+  user_call_completes o fns obj afs f af args m m1 vals s v m2 m' ->
+  forall n : str,
+  env_get (menv m') n = match local_get n (scopes (menv m1)) with
+                        | Some x => Some x
+                        | None => assoc_get n (globals (menv m2))
+                        end /\
+  (forall x : value, local_get n (scopes (menv m1)) = Some x -> env_get (menv m') n = Some x /\ env_get (menv m1) n = Some x) /\
+  (local_get n (scopes (menv m1)) = None -> local_get n (scopes (menv m2)) = None -> env_get (menv m') n = env_get (menv m2) n).
+Proof. exact SpecCallProofs.assignment_to_other_names_is_global. Qed.
+
+(* after a foreach loop the loop variables are gone and every enclosing local of the same name has its old value
+   (a GLOBAL of that name may have been assigned by a function called from the body: SpecCallProofs has the
+   counterexample) *)
+Theorem C06_foreach_variables_scoped : forall (o : stdlib) (fns : fnmap) (obj : hostval) (afs : aftable) (f : nat) (idx ident : str)
+    (v : expr) (body : list stmt) (m m' : mstate) (x : str),
+  x = ident \/ idx <> [] /\ x = idx ->
+  sx o fns obj afs (S f) (EForeach idx ident v body) m = XNormal m' ->
+  exists (m1 : mstate) (c : value) (s : list value),
+    sx o fns obj afs f v m = XNormal m1 /\ stk m1 = c :: s /\
+    map fst (scopes (menv m')) = map fst (scopes (menv m1)) /\
+    xview x (scopes (menv m')) = xview x (scopes (menv m1)) /\
+    local_get x (scopes (menv m')) = local_get x (scopes (menv m1)) /\
+    (forall v0 : value, local_get x (scopes (menv m1)) = Some v0 -> env_get (menv m') x = Some v0 /\ env_get (menv m1) x = Some v0).
+Proof. exact SpecCallProofs.foreach_variables_scoped. Qed.
+
+(* functions may be called before their definition: the table is collected from the whole script, and a
+   definition is found wherever it is written (the last one of a name wins) *)
+Theorem C06_definition_found_wherever_written : forall (fuel : nat) (pre : list stmt) (name : str) (ps : list str) (b post : list stmt)
+    (t : aftable),
+  nodef_block (S (S fuel)) name post = true ->
+  af_get name (collect_block (S (S fuel)) (pre ++ SExpr (EFunction name ps b) :: post) t) = Some (mkAfunc ps b).
+Proof. exact SpecCallProofs.definition_found_wherever_written. Qed.
